@@ -1,6 +1,7 @@
 import Abverif.Model.Session
 import Abverif.Model.SessSpec
 import Abverif.Model.SessTrace
+import Abverif.Model.SendTable
 /-
 Line protocol for the session model.
 
@@ -13,6 +14,7 @@ Line protocol for the session model.
                                             trace observed elsewhere: n event tokens, then the n observation lines
                                             they produced (each one token, as printed by `sess` / the workers)
   answer  : `ok` | `<event index>:<violation> …`
+  request : `sendtable`                     the send() classification table generated from the source, 4 rows x 2 columns
 
 Event tokens (no blanks inside; fields separated by `,`):
   open[;acts] closed[;acts] pump tick join leave disconnect
@@ -605,6 +607,11 @@ def handle : List String → Option String
       let _ ← parseMode mode
       let evs ← evs.mapM parseEv
       pure (join " | " ((specToks {} evs).map rObs))
+  | ["sendtable"] =>
+      -- the generated table, row by row (ws/twisted, ws/asyncio, rs/twisted, rs/asyncio) x (unserializable, oversize)
+      some (join " " (Transport.all.flatMap (fun t => [Cause.unserializable, Cause.oversize].map (fun c =>
+        match sendTable t c with
+        | .ok => "ok" | .serialization => "ser" | .payloadExceeded => "big" | .transportLost => "lost" | .other => "other"))))
   | "sesstrace" :: mode :: n :: rest => do
       let mode ← parseMode mode
       let n ← n.toNat?
